@@ -149,6 +149,7 @@ func replayCmd(path string, args []string) int {
 			choices = append(choices, int(x.(float64)))
 		}
 		baseSearchConfig()
+		lcSweepIdles() // programs of the start-while-running sweep use idle ops that are created at run time
 		x, same := sched.Replay(choices, lcBody(prog), sched.Options{})
 		fmt.Println("program:", lcName(prog), "deterministic:", same, "verdict:", x.Verdict, x.Detail)
 		for _, e := range x.EventsString() {
